@@ -75,25 +75,27 @@ Definition seqv (a b : rstate) : Prop :=
   r_method a = r_method b /\ r_rawquery a = r_rawquery b /\ r_cookies a = r_cookies b /\
   r_form a = r_form b /\ r_query a = r_query b /\ r_body a = r_body b /\
   r_getbody a = r_getbody b /\ r_reader a = r_reader b /\ r_unreplayable a = r_unreplayable b /\
-  r_attempt a = r_attempt b /\ heq (r_headers a) (r_headers b).
+  r_attempt a = r_attempt b /\ r_path a = r_path b /\ r_pparams a = r_pparams b /\
+  r_ordered a = r_ordered b /\ heq (r_headers a) (r_headers b).
 
 Lemma seqv_refl a : seqv a a.
 Proof. unfold seqv. repeat split; apply heq_refl. Qed.
 Lemma seqv_sym a b : seqv a b -> seqv b a.
 Proof.
-  unfold seqv. intros (?&?&?&?&?&?&?&?&?&?&H). repeat (split; [congruence|]). apply heq_sym, H.
+  unfold seqv. intros (?&?&?&?&?&?&?&?&?&?&?&?&?&H). repeat (split; [congruence|]). apply heq_sym, H.
 Qed.
 Lemma seqv_trans a b c : seqv a b -> seqv b c -> seqv a c.
 Proof.
-  unfold seqv. intros (?&?&?&?&?&?&?&?&?&?&Hx) (?&?&?&?&?&?&?&?&?&?&Hy).
+  unfold seqv. intros (?&?&?&?&?&?&?&?&?&?&?&?&?&Hx) (?&?&?&?&?&?&?&?&?&?&?&?&?&Hy).
   repeat (split; [congruence|]). eapply heq_trans; eassumption.
 Qed.
 
 Lemma seqv_wire c a b : seqv a b -> wire_same (wire_of c a) (wire_of c b).
 Proof.
-  unfold seqv, wire_same, wire_of, wire_query, body_now. cbn [w_method w_query w_cookies w_body w_headers].
-  intros (Hm & Hq & Hc & Hf & Hqq & Hb & Hg & Hr & Hu & Ha & Hh).
-  rewrite Hm, Hq, Hc, Hqq, Hg, Hr. repeat split. exact Hh.
+  unfold seqv, wire_same, wire_of, wire_query, wire_path, body_now.
+  cbn [w_method w_path w_query w_cookies w_body w_headers].
+  intros (Hm & Hq & Hc & Hf & Hqq & Hb & Hg & Hr & Hu & Ha & Hpa & Hpp & Hod & Hh).
+  rewrite Hm, Hq, Hc, Hqq, Hg, Hr, Hpa, Hpp. repeat split. exact Hh.
 Qed.
 
 Lemma wire_same_refl a : wire_same a a.
@@ -102,14 +104,31 @@ Lemma wire_same_sym a b : wire_same a b -> wire_same b a.
 Proof. unfold wire_same. intuition congruence. Qed.
 Lemma wire_same_trans a b c : wire_same a b -> wire_same b c -> wire_same a c.
 Proof.
-  unfold wire_same. intros (?&?&?&?&Hx) (?&?&?&?&Hy). repeat (split; [congruence|]).
+  unfold wire_same. intros (?&?&?&?&?&Hx) (?&?&?&?&?&Hy). repeat (split; [congruence|]).
   intro k. rewrite Hx. apply Hy.
 Qed.
 
+Ltac simp_r :=
+  cbn [r_method r_rawquery r_headers r_cookies r_form r_query r_body r_getbody r_reader r_unreplayable r_attempt
+       r_path r_pparams r_ordered
+       set_headers set_cookies set_form set_body set_reader set_attempt].
+
 Ltac solve_seqv :=
-  unfold seqv, set_body, set_headers, set_form, set_cookies, set_attempt; cbn;
+  unfold seqv; simp_r;
   repeat (split; [first [assumption|reflexivity|congruence]|]);
   first [assumption | apply hset_heq; assumption | apply merge_headers_heq; assumption | apply heq_refl].
+
+Lemma hget_hset_same k vs m : hget k (hset k vs m) = vs.
+Proof. rewrite hget_hset, bytes_eqb_refl. reflexivity. Qed.
+
+Lemma hfirst_hset_same k x m : hfirst k (hset k [x] m) = x.
+Proof. unfold hfirst. rewrite hget_hset_same. reflexivity. Qed.
+
+Lemma hset_known_heq k vs m : hget k m = vs -> heq (hset k vs m) m.
+Proof.
+  intros H k0. rewrite hget_hset. destruct (bytes_eqb k0 k) eqn:E; [|reflexivity].
+  apply bytes_eqb_eq in E. subst k0. symmetry. exact H.
+Qed.
 
 Section Prepare.
 Variable detect : bytes -> bytes.
@@ -117,71 +136,117 @@ Variable c : client.
 
 Lemma prep_header_seqv a b : seqv a b -> seqv (prep_header c a) (prep_header c b).
 Proof.
-  intros H. pose proof H as (Hm & Hq & Hc & Hf & Hqq & Hb & Hg & Hr & Hu & Ha & Hh).
+  intros H. pose proof H as (Hm & Hq & Hc & Hf & Hqq & Hb & Hg & Hr & Hu & Ha & Hpa & Hpp & Hod & Hh).
   unfold prep_header. solve_seqv.
 Qed.
 
 Lemma prep_cookie_seqv a b : seqv a b -> seqv (prep_cookie c a) (prep_cookie c b).
 Proof.
-  intros H. pose proof H as (Hm & Hq & Hc & Hf & Hqq & Hb & Hg & Hr & Hu & Ha & Hh).
+  intros H. pose proof H as (Hm & Hq & Hc & Hf & Hqq & Hb & Hg & Hr & Hu & Ha & Hpa & Hpp & Hod & Hh).
   unfold prep_cookie. rewrite Ha.
   destruct (nonempty (c_cookies c) && (r_attempt b <=? 0)%Z); [|exact H].
   rewrite Hc. solve_seqv.
 Qed.
 
+Lemma detect_stage_seqv a b : seqv a b -> seqv (detect_stage detect c a) (detect_stage detect c b).
+Proof.
+  intros H. pose proof H as (Hm & Hq & Hc & Hf & Hqq & Hb & Hg & Hr & Hu & Ha & Hpa & Hpp & Hod & Hh).
+  unfold detect_stage. rewrite Hb. destruct (r_body b) eqn:Ebb; [|exact H].
+  destruct (nonempty (hfirst content_type (c_headers c))); [exact H|].
+  rewrite (hfirst_heq content_type _ _ Hh).
+  destruct (nonempty (hfirst content_type (r_headers b))); [exact H|solve_seqv].
+Qed.
+
+Lemma merge_form_seqv a b : seqv a b ->
+  seqv (if nonempty (c_form c) && (r_attempt a <=? 0)%Z then set_form a (add_values (c_form c) (r_form a)) else a)
+       (if nonempty (c_form c) && (r_attempt b <=? 0)%Z then set_form b (add_values (c_form c) (r_form b)) else b).
+Proof.
+  intros H. pose proof H as (Hm & Hq & Hc & Hf & Hqq & Hb & Hg & Hr & Hu & Ha & Hpa & Hpp & Hod & Hh).
+  rewrite Ha, Hf. destruct (nonempty (c_form c) && (r_attempt b <=? 0)%Z); [solve_seqv|exact H].
+Qed.
+
 Lemma prep_body_seqv a b : seqv a b -> seqv (prep_body detect c a) (prep_body detect c b).
 Proof.
-  intros H. pose proof H as (Hm & Hq & Hc & Hf & Hqq & Hb & Hg & Hr & Hu & Ha & Hh).
-  unfold prep_body, prep_body_gen. rewrite Hm, Ha. cbn [orb].
-  destruct (payload_forbid c (r_method b)); [solve_seqv|].
-  destruct (nonempty (c_form c) && (r_attempt b <=? 0)%Z).
-  - cbn [set_form r_form r_headers r_body]. rewrite Hf.
-    destruct (nonempty (add_values (c_form c) (r_form b))); [solve_seqv|].
-    rewrite Hb. destruct (r_body b) eqn:Eb; [|solve_seqv].
-    destruct (nonempty (hfirst content_type (c_headers c))); [solve_seqv|].
-    rewrite (hfirst_heq content_type _ _ Hh).
-    destruct (nonempty (hfirst content_type (r_headers b))); solve_seqv.
-  - rewrite Hf.
-    destruct (nonempty (r_form b)); [solve_seqv|].
-    rewrite Hb. destruct (r_body b) eqn:Eb; [|exact H].
-    destruct (nonempty (hfirst content_type (c_headers c))); [exact H|].
-    rewrite (hfirst_heq content_type _ _ Hh).
-    destruct (nonempty (hfirst content_type (r_headers b))); [exact H|solve_seqv].
+  intros H. pose proof H as (Hm & _).
+  unfold prep_body, prep_body_gen. rewrite Hm. cbn [orb].
+  destruct (payload_forbid c (r_method b)).
+  { pose proof H as (_ & Hq & Hc & Hf & Hqq & Hb & Hg & Hr & Hu & Ha & Hpa & Hpp & Hod & Hh). solve_seqv. }
+  pose proof (merge_form_seqv a b H) as H1. cbv zeta.
+  set (a1 := if nonempty (c_form c) && (r_attempt a <=? 0)%Z then _ else a) in *.
+  set (b1 := if nonempty (c_form c) && (r_attempt b <=? 0)%Z then _ else b) in *.
+  clearbody a1 b1.
+  pose proof H1 as (Hm1 & Hq & Hc & Hf & Hqq & Hb & Hg & Hr & Hu & Ha & Hpa & Hpp & Hod & Hh).
+  rewrite Hod, Hf.
+  destruct (nonempty (r_ordered b1)); [solve_seqv|].
+  destruct (nonempty (r_form b1)); [solve_seqv|].
+  apply detect_stage_seqv, H1.
 Qed.
 
 Lemma prepare_seqv a b : seqv a b -> seqv (prepare detect c a) (prepare detect c b).
 Proof. intros H. unfold prepare. apply prep_body_seqv, prep_cookie_seqv, prep_header_seqv, H. Qed.
 
-Lemma prepare_attempt s : r_attempt (prepare detect c s) = r_attempt s.
+(* the fields no stage of the middleware pass touches *)
+Definition frame (s : rstate) :=
+  (r_method s, r_rawquery s, r_query s, r_reader s, r_unreplayable s, r_attempt s, r_path s, r_pparams s).
+
+Lemma frame_detect_stage s : frame (detect_stage detect c s) = frame s.
 Proof.
-  unfold prepare, prep_body, prep_body_gen, prep_cookie, prep_header.
-  repeat match goal with |- context [if ?b then _ else _] => destruct b end;
-  cbn; try reflexivity;
-  repeat match goal with |- context [match ?b with _ => _ end] => destruct b; cbn; try reflexivity end.
+  unfold detect_stage. destruct (r_body s); [|reflexivity].
+  destruct (nonempty (hfirst content_type (c_headers c))); [reflexivity|].
+  destruct (nonempty (hfirst content_type (r_headers s))); reflexivity.
 Qed.
+
+Lemma frame_prep_body s : frame (prep_body detect c s) = frame s.
+Proof.
+  unfold prep_body, prep_body_gen. destruct (payload_forbid c (r_method s)); [reflexivity|].
+  cbv zeta.
+  set (s1 := if nonempty (c_form c) && _ then _ else s).
+  assert (H1 : frame s1 = frame s) by (unfold s1; destruct (nonempty (c_form c) && _); reflexivity).
+  destruct (nonempty (r_ordered s1)); [exact H1|].
+  destruct (nonempty (r_form s1)); [exact H1|].
+  rewrite frame_detect_stage. exact H1.
+Qed.
+
+Lemma frame_prepare s : frame (prepare detect c s) = frame s.
+Proof.
+  unfold prepare. rewrite frame_prep_body. unfold prep_cookie, prep_header.
+  destruct (nonempty (c_cookies c) && _); reflexivity.
+Qed.
+
+Lemma prepare_attempt s : r_attempt (prepare detect c s) = r_attempt s.
+Proof. pose proof (frame_prepare s) as H. unfold frame in H. congruence. Qed.
 
 Lemma prepare_method s : r_method (prepare detect c s) = r_method s.
-Proof.
-  unfold prepare, prep_body, prep_body_gen, prep_cookie, prep_header.
-  repeat match goal with |- context [if ?b then _ else _] => destruct b end;
-  cbn; try reflexivity;
-  repeat match goal with |- context [match ?b with _ => _ end] => destruct b; cbn; try reflexivity end.
-Qed.
+Proof. pose proof (frame_prepare s) as H. unfold frame in H. congruence. Qed.
 
 Lemma prepare_unreplayable s : r_unreplayable (prepare detect c s) = r_unreplayable s.
+Proof. pose proof (frame_prepare s) as H. unfold frame in H. congruence. Qed.
+
+Lemma prepare_url_fields s :
+  r_query (prepare detect c s) = r_query s /\ r_rawquery (prepare detect c s) = r_rawquery s /\
+  r_path (prepare detect c s) = r_path s /\ r_pparams (prepare detect c s) = r_pparams s.
+Proof. pose proof (frame_prepare s) as H. unfold frame in H. repeat split; congruence. Qed.
+
+Lemma detect_stage_getbody s : r_getbody (detect_stage detect c s) = r_getbody s.
 Proof.
-  unfold prepare, prep_body, prep_body_gen, prep_cookie, prep_header.
-  repeat match goal with |- context [if ?b then _ else _] => destruct b end;
-  cbn; try reflexivity;
-  repeat match goal with |- context [match ?b with _ => _ end] => destruct b; cbn; try reflexivity end.
+  unfold detect_stage. destruct (r_body s); [|reflexivity].
+  destruct (nonempty (hfirst content_type (c_headers c))); [reflexivity|].
+  destruct (nonempty (hfirst content_type (r_headers s))); reflexivity.
 Qed.
 
 Lemma prepare_not_reader s : r_getbody s <> GBReader -> r_getbody (prepare detect c s) <> GBReader.
 Proof.
-  unfold prepare, prep_body, prep_body_gen, prep_cookie, prep_header.
-  repeat match goal with |- context [if ?b then _ else _] => destruct b end;
-  cbn; try congruence;
-  repeat match goal with |- context [match ?b with _ => _ end] => destruct b; cbn; try congruence end.
+  intros Hg. unfold prepare.
+  set (X := prep_cookie c (prep_header c s)).
+  assert (HX : r_getbody X <> GBReader).
+  { unfold X, prep_cookie, prep_header. destruct (nonempty (c_cookies c) && _); simp_r; exact Hg. }
+  clearbody X. unfold prep_body, prep_body_gen.
+  destruct (payload_forbid c (r_method X)); [simp_r; discriminate|]. cbv zeta.
+  set (s1 := if nonempty (c_form c) && _ then _ else X).
+  assert (H1 : r_getbody s1 <> GBReader) by (unfold s1; destruct (nonempty (c_form c) && _); simp_r; exact HX).
+  destruct (nonempty (r_ordered s1)); [simp_r; discriminate|].
+  destruct (nonempty (r_form s1)); [simp_r; discriminate|].
+  rewrite detect_stage_getbody. exact H1.
 Qed.
 
 Lemma merge_hset_idem ch k0 x h :
@@ -197,41 +262,55 @@ Qed.
 Lemma hset_hset_heq k v m : heq (hset k v (hset k v m)) (hset k v m).
 Proof. intro k0. rewrite !hget_hset. destruct (bytes_eqb k0 k); reflexivity. Qed.
 
-Ltac case_ifs :=
-  repeat match goal with
-         | |- context [if ?x then _ else _] => destruct x eqn:?;
-             cbn [r_method r_rawquery r_headers r_cookies r_form r_query r_body r_getbody r_reader r_unreplayable r_attempt]
-         | |- context [match ?x with Some _ => _ | None => _ end] => destruct x eqn:?;
-             cbn [r_method r_rawquery r_headers r_cookies r_form r_query r_body r_getbody r_reader r_unreplayable r_attempt]
-         end.
+(* the header map a pass of the body stage leaves: unchanged, or with Content-Type set *)
+Lemma detect_stage_headers t :
+  r_headers (detect_stage detect c t) = r_headers t \/
+  (nonempty (hfirst content_type (r_headers t)) = false /\
+   exists x, r_headers (detect_stage detect c t) = hset content_type [x] (r_headers t)).
+Proof.
+  unfold detect_stage. destruct (r_body t); [|left; reflexivity].
+  destruct (nonempty (hfirst content_type (c_headers c))); [left; reflexivity|].
+  destruct (nonempty (hfirst content_type (r_headers t))) eqn:E; [left; reflexivity|].
+  right. split; [reflexivity|]. eexists. reflexivity.
+Qed.
+
+Lemma prep_body_headers_shape X :
+  r_headers (prep_body detect c X) = r_headers X \/
+  exists x, r_headers (prep_body detect c X) = hset content_type [x] (r_headers X).
+Proof.
+  unfold prep_body, prep_body_gen. destruct (payload_forbid c (r_method X)); [left; reflexivity|].
+  cbv zeta.
+  set (s1 := if nonempty (c_form c) && _ then _ else X).
+  assert (H1 : r_headers s1 = r_headers X) by (unfold s1; destruct (nonempty (c_form c) && _); reflexivity).
+  destruct (nonempty (r_ordered s1)); [right; eexists; simp_r; rewrite H1; reflexivity|].
+  destruct (nonempty (r_form s1)); [right; eexists; simp_r; rewrite H1; reflexivity|].
+  destruct (detect_stage_headers s1) as [E|(En & x & E)]; rewrite E.
+  - left. exact H1.
+  - right. exists x. rewrite H1. reflexivity.
+Qed.
 
 (* the header map the first pass leaves: the merged map, possibly with Content-Type set *)
 Lemma prepare_headers_shape s :
   let H0 := merge_headers (c_headers c) (r_headers s) in
   r_headers (prepare detect c s) = H0 \/ exists x, r_headers (prepare detect c s) = hset content_type [x] H0.
 Proof.
-  destruct s as [m rq h ck f q bd gb rd un at_].
-  unfold prepare, prep_body, prep_body_gen, prep_cookie, prep_header, set_attempt, set_headers, set_cookies, set_form, set_body.
-  cbn [r_method r_rawquery r_headers r_cookies r_form r_query r_body r_getbody r_reader r_unreplayable r_attempt].
-  case_ifs; try (left; reflexivity); right; eexists; reflexivity.
+  cbv zeta. unfold prepare.
+  assert (HX : r_headers (prep_cookie c (prep_header c s)) = merge_headers (c_headers c) (r_headers s)).
+  { unfold prep_cookie, prep_header. destruct (nonempty (c_cookies c) && _); reflexivity. }
+  destruct (prep_body_headers_shape (prep_cookie c (prep_header c s))) as [E|[x E]]; rewrite E, HX.
+  - left. reflexivity.
+  - right. exists x. reflexivity.
 Qed.
 
-Ltac simp_r :=
-  cbn [r_method r_rawquery r_headers r_cookies r_form r_query r_body r_getbody r_reader r_unreplayable r_attempt
-       set_headers set_cookies set_form set_body set_reader set_attempt].
-
-Lemma hget_hset_same k vs m : hget k (hset k vs m) = vs.
-Proof. rewrite hget_hset, bytes_eqb_refl. reflexivity. Qed.
-
-Lemma hset_known_heq k vs m : hget k m = vs -> heq (hset k vs m) m.
-Proof.
-  intros H k0. rewrite hget_hset. destruct (bytes_eqb k0 k) eqn:E; [|reflexivity].
-  apply bytes_eqb_eq in E. subst k0. symmetry. exact H.
-Qed.
+(* ---------- the body stage reproduces its own output ---------- *)
 
 (* what the body stage establishes about its own output *)
 Definition body_settled (Y : rstate) : Prop :=
   if payload_forbid c (r_method Y) then r_body Y = None /\ r_getbody Y = GBNil
+  else if nonempty (r_ordered Y) then
+    r_body Y = Some (ordered_encode (r_ordered Y) (r_form Y)) /\
+    r_getbody Y = GBStatic (ordered_encode (r_ordered Y) (r_form Y)) /\
+    hget content_type (r_headers Y) = [form_content_type]
   else if nonempty (r_form Y) then
     r_body Y = Some (encode_values (r_form Y)) /\ r_getbody Y = GBStatic (encode_values (r_form Y)) /\
     hget content_type (r_headers Y) = [form_content_type]
@@ -244,38 +323,42 @@ Definition body_settled (Y : rstate) : Prop :=
 
 Lemma prep_body_settles X : body_settled (prep_body detect c X).
 Proof.
-  destruct X as [m rq h ck f q bd gb rd un at_].
-  unfold body_settled, prep_body, prep_body_gen. simp_r. cbn [orb].
+  destruct X as [m rq h ck f q bd gb rd un at_ pa pp od].
+  unfold body_settled, prep_body, prep_body_gen, detect_stage. simp_r. cbn [orb].
   destruct (payload_forbid c m) eqn:Ef; simp_r.
-  - rewrite Ef. simp_r. split; reflexivity.
-  - destruct (nonempty (c_form c) && (at_ <=? 0)%Z); simp_r;
-    [set (F := add_values (c_form c) f)|set (F := f)];
-    (destruct (nonempty F) eqn:Efm; simp_r;
-     [rewrite Ef, Efm; simp_r; repeat split; apply hget_hset_same|];
-     destruct bd as [bd|]; simp_r;
-     [|rewrite Ef, Efm; simp_r; exact I];
-     destruct (nonempty (hfirst content_type (c_headers c))) eqn:E1; simp_r;
-     [rewrite Ef, Efm; simp_r; left; first [reflexivity|exact E1]|];
-     destruct (nonempty (hfirst content_type h)) eqn:E2; simp_r; rewrite Ef, Efm; simp_r;
-     [right; left; first [reflexivity|exact E2]|right; right; apply hget_hset_same]).
+  { rewrite Ef. simp_r. repeat split. }
+  destruct (nonempty (c_form c) && (at_ <=? 0)%Z); simp_r;
+  [set (F := add_values (c_form c) f)|set (F := f)].
+  all: destruct (nonempty od) eqn:Eod; simp_r;
+       [rewrite Ef, Eod; simp_r; repeat split; apply hget_hset_same|].
+  all: destruct (nonempty F) eqn:Efm; simp_r;
+       [rewrite Ef, Eod, Efm; simp_r; repeat split; apply hget_hset_same|].
+  all: destruct bd as [bd|]; simp_r; [|rewrite Ef, Eod, Efm; simp_r; exact I].
+  all: destruct (nonempty (hfirst content_type (c_headers c))) eqn:E1; simp_r;
+       [rewrite Ef, Eod, Efm; simp_r; left; first [reflexivity|exact E1]|].
+  all: destruct (nonempty (hfirst content_type h)) eqn:E2; simp_r; rewrite Ef, Eod, Efm; simp_r;
+       [right; left; first [reflexivity|exact E2]|right; right; apply hget_hset_same].
 Qed.
 
 Lemma body_settled_fixed Y b :
   (1 <= b)%Z -> body_settled Y -> seqv (prep_body detect c (set_attempt Y b)) (set_attempt Y b).
 Proof.
   intros Hb. assert (E1 : (b <=? 0)%Z = false) by lia.
-  destruct Y as [m rq h ck f q bd gb rd un at_].
-  unfold body_settled, prep_body, prep_body_gen. simp_r. cbn [orb]. rewrite E1, andb_false_r.
+  destruct Y as [m rq h ck f q bd gb rd un at_ pa pp od].
+  unfold body_settled, prep_body, prep_body_gen, detect_stage. simp_r. cbn [orb]. rewrite E1, andb_false_r.
   destruct (payload_forbid c m) eqn:Ef; simp_r.
-  - intros [H1 H2]. subst bd gb. apply seqv_refl.
-  - destruct (nonempty f) eqn:Efm; simp_r.
-    + intros (H1 & H2 & H3). subst bd gb.
-      unfold seqv. simp_r. repeat (split; [reflexivity|]). apply hset_known_heq, H3.
-    + destruct bd as [bd|]; [|intros _; apply seqv_refl].
-      destruct (nonempty (hfirst content_type (c_headers c))) eqn:E2; [intros _; apply seqv_refl|].
-      destruct (nonempty (hfirst content_type h)) eqn:E3; [intros _; apply seqv_refl|].
-      intros [H|[H|H]]; [discriminate H|discriminate H|].
-      unfold seqv. simp_r. repeat (split; [reflexivity|]). apply hset_known_heq, H.
+  { intros (H1 & H2). subst bd gb. apply seqv_refl. }
+  destruct (nonempty od) eqn:Eod; simp_r.
+  { intros (H1 & H2 & H3). subst bd gb.
+    unfold seqv. simp_r. repeat (split; [reflexivity|]). apply hset_known_heq, H3. }
+  destruct (nonempty f) eqn:Efm; simp_r.
+  { intros (H1 & H2 & H3). subst bd gb.
+    unfold seqv. simp_r. repeat (split; [reflexivity|]). apply hset_known_heq, H3. }
+  destruct bd as [bd|]; [|intros _; apply seqv_refl].
+  destruct (nonempty (hfirst content_type (c_headers c))) eqn:E2; [intros _; apply seqv_refl|].
+  destruct (nonempty (hfirst content_type h)) eqn:E3; [intros _; apply seqv_refl|].
+  intros [H|[H|H]]; [discriminate H|discriminate H|].
+  unfold seqv. simp_r. repeat (split; [reflexivity|]). apply hset_known_heq, H.
 Qed.
 
 (* the body stage applied to its own output (any positive attempt number) changes nothing *)
@@ -294,7 +377,7 @@ Proof.
   intros Hb.
   set (s1 := set_attempt (prepare detect c s) b).
   assert (Hh : seqv (prep_header c s1) s1).
-  { unfold prep_header, s1. unfold seqv, set_headers, set_attempt. cbn.
+  { unfold prep_header, s1. unfold seqv. simp_r.
     repeat (split; [reflexivity|]).
     destruct (prepare_headers_shape s) as [E|[x E]]; cbn zeta in E; rewrite E.
     - apply merge_headers_idem.
